@@ -11,7 +11,7 @@ RULE = ("cases are histories of up to 12 operations over up to 3 lists ([int...]
         "and 2 maps (map[str,int]) and their aliases / clones: push, remove, index read / assignment / op=, reverse, join "
         "(incl. self- and alias-join), clear, clone, map / filter with logging and capturing callbacks (also closures made by a factory that outlived the frame they captured from, one of them counting its calls), index_of, len, ==, `is` (aliases, clones, fresh and empty lists), "
         "an optional-element list that also stores present optionals produced by built-ins next to a shadow list of the same plain values (the two must stay ==), "
-        "a map[int?, int] addressed through plain keys, nil and present optionals produced by built-ins, a [str?...] receiving what map.remove hands back; string concatenation of elements; map literal, index read/assignment, replace, remove, contains_key, len, keys, "
+        "a map[int?, int] addressed through plain keys, nil and present optionals produced by built-ins, a [str?...] receiving what map.remove hands back, a map[str, int?] with entries that hold nil (set, replaced, removed, cloned; seen by contains_key / len / keys), a map[int, int] written through keys read from itself; string concatenation of elements; map literal, index read/assignment, replace, remove, contains_key, len, keys, "
         "values, pairs, clear, clone; indices from {-1, 0, 1, len-1, len, len+1}; every live container is printed after each "
         "step (maps through len + lookups of the key universe, never by printing the map). Oracle = reference interpreter "
         "(Python lists / dicts with identity). Non-trivial = a mutation through one alias is observed through another, or an "
@@ -315,6 +315,8 @@ def cases(draw):
             if not has_optkeys:
                 stmts.append(("decl", "mo", None, ("map", "int?", "int", [(I(1), I(10)), (("nil",), I(0))]), ()))
                 stmts.append(("decl", "mss", None, ("map", "str", "str", [(S("a"), S("b")), (S("c"), S("d"))]), ()))
+                stmts.append(("decl", "mi", None, ("map", "int", "int", [(I(1), I(2)), (I(2), I(1))]), ()))
+                stmts.append(("decl", "mv", None, ("map", "str", "int?", [(S("a"), ("nil",)), (S("b"), I(2))]), ()))
                 stmts.append(("decl", "los", ("list", ("opt", "str")), ("list", [S("x"), ("nil",)]), ()))
                 # the type checker wants an index of exactly the key type: the key universe lives in `int?` variables
                 for i_, kv in enumerate((I(0), I(1), I(2), ("nil",))):
@@ -322,8 +324,36 @@ def cases(draw):
                 has_optkeys = True
             g.label("optional-keys")
             stmts.append(("decl", "ko", ("opt", "int"), g.choice([I(1), I(2), ("nil",), ("mcall", V(l), "index_of", [I(g.int(0, 9))]), ("mcall", V(l), "index_of", [("index", V(l), I(0))])]), ()))
-            k = g.choice(["set", "get", "contains", "remove", "replace", "strpush"])
-            if k == "set":
+            k = g.choice(["set", "get", "contains", "remove", "replace", "strpush", "selfkey", "selfkey-op", "optval", "optval"])
+            if k == "optval":
+                # a map whose VALUES are optional: an entry that holds nil is an entry (contains_key, len, keys see it)
+                kk = S(g.choice(KEYS))
+                w = g.choice(["set-nil", "set-value", "replace-nil", "remove", "copy-nil-entry"])
+                if w == "set-nil":
+                    stmts.append(("seti", V("mv"), kk, ("nil",)))
+                elif w == "set-value":
+                    stmts.append(("seti", V("mv"), kk, I(g.int(1, 9))))
+                elif w == "replace-nil":
+                    stmts.append(("expr", ("mcall", V("mv"), "replace", [kk, ("nil",)])))
+                elif w == "remove":
+                    stmts.append(("expr", ("mcall", V("mv"), "remove", [kk])))
+                else:
+                    stmts.append(("decl", "mv2", None, ("mcall", V("mv"), "clone", []), ()))
+                    stmts.append(("print", ("mcall", V("mv2"), "contains_key", [kk])))
+                e2 = ("bin", "+", S("mv:"), ("mcall", V("mv"), "len", []))
+                for k3 in KEYS:
+                    e2 = ("bin", "+", e2, ("bin", "+", S(","), ("mcall", V("mv"), "contains_key", [S(k3)])))
+                stmts.append(("print", ("bin", "+", e2, ("bin", "+", S(" keys="), ("mcall", ("mcall", V("mv"), "keys", []), "len", [])))))
+            elif k == "selfkey":
+                # the key is read from the map that is being written
+                stmts.append(("seti", V("mi"), ("index", V("mi"), I(g.int(1, 2))), I(g.int(1, 2))))
+                stmts.append(("print", ("bin", "+", ("bin", "+", ("bin", "*", ("index", V("mi"), I(1)), I(10)), ("index", V("mi"), I(2))), ("bin", "*", ("mcall", V("mi"), "len", []), I(100)))))
+            elif k == "selfkey-op":
+                stmts.append(("opassign", ("index", V("mi"), ("index", V("mi"), I(g.int(1, 2)))), "*=", I(1)))
+                stmts.append(("print", ("mcall", V("mi"), "remove", [("index", V("mi"), I(1))])))
+                stmts.append(("seti", V("mi"), I(1), I(2)))
+                stmts.append(("seti", V("mi"), I(2), I(1)))
+            elif k == "set":
                 stmts.append(("seti", V("mo"), V("ko"), I(g.int(20, 29))))
             elif k == "get":
                 stmts.append(("print", ("or", ("index", V("mo"), V("ko")), V("neg1"))))
